@@ -3,7 +3,13 @@
 //! from_json_segments}` / `ParameterHetero::from_json_segments` / serde on them, and emits the same cases as Coq data
 //! (coq/gen/C14/*.v) to be evaluated by the models of ParamLookup.v / Segments.v / ParamSerde.v.
 use feos::gc_pcsaft::{GcPcSaftEosParameters, GcPcSaftRecord};
+use feos::epcsaft::{ElectrolytePcSaftBinaryRecord, ElectrolytePcSaftRecord};
+use feos::ideal_gas::{DipprRecord, JobackRecord};
 use feos::pcsaft::{PcSaft, PcSaftBinaryRecord, PcSaftParameters, PcSaftRecord};
+use feos::pets::{PetsBinaryRecord, PetsRecord};
+use feos::saftvrqmie::{SaftVRQMieBinaryRecord, SaftVRQMieRecord};
+use feos::uvtheory::{UVTheoryBinaryRecord, UVTheoryRecord};
+use quantity::{JOULE, KB, KELVIN};
 use feos::saftvrmie::{SaftVRMieBinaryRecord, SaftVRMieParameters, SaftVRMieRecord};
 use feos_core::cubic::{PengRobinsonParameters, PengRobinsonRecord};
 use feos_core::parameter::{
@@ -372,6 +378,7 @@ struct SegRec {
     sigma: i64, // /8
     eps: i64,   // integer
     polar: u8,  // 0 none, 1 mu, 2 q, 3 association sites, 4 association record without sites
+    mu: i64,    // /8: dipole moment of the kinds 5 and (heterosegmented only) 6
 }
 #[derive(Clone)]
 struct SegCase {
@@ -421,19 +428,26 @@ impl SegCase {
         let sbin = self.sbin.as_ref().map_or("None".to_string(), |b| {
             format!("(Some [{}])", b.iter().map(|(a, b, k)| format!("({}%N, {}%N, {})", a, b, qz(*k as i64, 64))).collect::<Vec<_>>().join("; "))
         });
+        // dipole moments of the heterosegmented records (kinds 5 and 6 carry "mu" there)
+        let mus: Vec<String> = self
+            .srecs
+            .iter()
+            .map(|s| format!("({}%N, {})", s.kind, if s.polar == 1 || s.polar == 2 { qz(s.mu, 8) } else { qz(0, 1) }))
+            .collect();
         format!(
-            "(mkSegCase {} {} [{}] [{}] {})",
+            "(mkSegCase {} {} [{}] [{}] [{}] {})",
             OPT_COQ[self.opt],
             nlist(&self.query),
             chems.join("; "),
             srecs.join("; "),
+            mus.join("; "),
             sbin
         )
     }
     fn json(&self) -> Value {
         json!({"opt": OPT_COQ[self.opt], "query": self.query.iter().map(|k| key(*k)).collect::<Vec<_>>(),
                "chemical_records": self.chems.iter().map(|c| json!({"identifier": c.id.json(), "segments": c.segs.iter().map(|s| seg_name(*s)).collect::<Vec<_>>(), "bonds": c.bonds})).collect::<Vec<_>>(),
-               "segment_records": self.srecs.iter().map(|s| json!({"identifier": seg_name(s.kind), "mw": s.mw as f64 / 4.0, "m": s.m as f64 / 8.0, "sigma": s.sigma as f64 / 8.0, "epsilon_k": s.eps, "polar": s.polar})).collect::<Vec<_>>(),
+               "segment_records": self.srecs.iter().map(|s| json!({"identifier": seg_name(s.kind), "mw": s.mw as f64 / 4.0, "m": s.m as f64 / 8.0, "sigma": s.sigma as f64 / 8.0, "epsilon_k": s.eps, "polar": s.polar, "mu(hetero: kinds 5,6; homo: kind 5)": s.mu as f64 / 8.0})).collect::<Vec<_>>(),
                "binary_segment_records": self.sbin.as_ref().map(|b| b.iter().map(|(a, b, k)| json!([seg_name(*a), seg_name(*b), *k as f64 / 64.0])).collect::<Vec<_>>())})
     }
     fn chem_json(c: &Chem) -> Value {
@@ -459,10 +473,15 @@ impl SegCase {
                 m.insert("m".into(), json!(s.m as f64 / 8.0));
                 m.insert("sigma".into(), json!(s.sigma as f64 / 8.0));
                 m.insert("epsilon_k".into(), json!(s.eps as f64));
-                if !hetero {
+                if hetero {
+                    // GcPcSaftRecord: dipolar kinds (no quadrupole in the heterosegmented model: kind 6 is a second dipolar kind)
+                    if s.polar == 1 || s.polar == 2 {
+                        m.insert("mu".into(), json!(s.mu as f64 / 8.0));
+                    }
+                } else {
                     match s.polar {
                         1 => {
-                            m.insert("mu".into(), json!(1.5));
+                            m.insert("mu".into(), json!(s.mu as f64 / 8.0));
                         }
                         2 => {
                             m.insert("q".into(), json!(2.25));
@@ -497,7 +516,7 @@ fn describe_homo(p: &PcSaftParameters) -> Value {
     let (pure, bin) = p.records();
     let comps: Vec<Value> = pure
         .iter()
-        .map(|r| json!([r.molarweight, r.model_record.m, r.model_record.sigma, r.model_record.epsilon_k]))
+        .map(|r| json!([r.molarweight, r.model_record.m, r.model_record.sigma, r.model_record.epsilon_k, r.model_record.mu, r.model_record.q]))
         .collect();
     let n = pure.len();
     let k: Vec<Vec<f64>> = (0..n).map(|i| (0..n).map(|j| bin.map_or(0.0, |b| b[[i, j]].k_ij)).collect()).collect();
@@ -602,7 +621,12 @@ fn run_hetero(dir: &str, c: &SegCase) -> Value {
                 })
                 .collect();
             pb.sort_by(|a, b| (a.0, a.1).cmp(&(b.0, b.1)));
-            json!({"counts": counts, "bonds": bonds, "mw": p.molarweight[i], "m_counts": mcount, "param_bonds": pb})
+            // dipole: mu2 = (sum n mu^2) / m * factor; m_mix, sigma_mix (diagonal of s_ij), epsilon_mix (diagonal of e_k_ij)
+            let factor = 1e-19 * (JOULE / KELVIN / KB).into_value();
+            let dip = p.dipole_comp.iter().position(|&c| c == i).map(|k| {
+                json!({"mu2_sum": p.mu2[k] * p.m_mix[k] / factor, "m": p.m_mix[k], "sigma": p.s_ij[[k, k]], "epsilon_k": p.e_k_ij[[k, k]]})
+            });
+            json!({"counts": counts, "bonds": bonds, "mw": p.molarweight[i], "m_counts": mcount, "param_bonds": pb, "dipole": dip})
         })
         .collect();
     // (the order of the segments inside a component is the iteration order of a HashMap: sort for a canonical output)
@@ -708,11 +732,253 @@ fn serde_cases(rng: &mut Rng, n: usize, coq: &mut String) -> Value {
         let assoc = if ka.is_none() && ea.is_none() { "None".to_string() } else { format!("(Some (mkSBA {} {} None))", coq_oz(ka), coq_oz(ea)) };
         bnq.push(format!("mkSB {} {}", coq_z(k), assoc));
     }
+    // ePC-SAFT binary record: coefficient vector of the temperature polynomial (zeros at every position, incl. the first)
+    let mut eb = vec![];
+    let mut ebq = vec![];
+    for _ in 0..n {
+        let len = [0usize, 1, 2, 4, 4, 4, 5][rng.below(7)];
+        let pz = [0.2, 0.5, 0.8][rng.below(3)];
+        let k: Vec<i64> = (0..len).map(|_| if rng.f64() < pz { 0 } else { tok(rng) }).collect();
+        let (ka, ea) = (otok(rng, false), otok(rng, false));
+        let rec = ElectrolytePcSaftBinaryRecord::new(Some(k.iter().map(|z| f(*z)).collect()), ka.map(f), ea.map(f));
+        let (s1, rt) = roundtrip(&rec);
+        eb.push(json!({"print": s1, "reprint": rt.as_ref().map(|x| x.0.clone()), "k_after": rt.as_ref().map(|x| x.1.k_ij.clone()),
+                       "k_before": k.iter().map(|z| f(*z)).collect::<Vec<_>>()}));
+        let assoc = if ka.is_none() && ea.is_none() { "None".to_string() } else { format!("(Some (mkSBA {} {} None))", coq_oz(ka), coq_oz(ea)) };
+        ebq.push(format!("mkSEB [{}] {}", k.iter().map(|z| coq_z(*z)).collect::<Vec<_>>().join("; "), assoc));
+    }
+    writeln!(coq, "Definition serde_eb : list sebinary := [\n {}].", ebq.join(";\n ")).unwrap();
+    writeln!(coq, "Eval vm_compute in (\"SERDE_EB\", map run_serde_ebinary serde_eb).").unwrap();
     writeln!(coq, "Definition serde_pc : list spcsaft := [\n {}].", pcq.join(";\n ")).unwrap();
     writeln!(coq, "Definition serde_bn : list sbinary := [\n {}].", bnq.join(";\n ")).unwrap();
     writeln!(coq, "Eval vm_compute in (\"SERDE_PC\", map run_serde_pcsaft serde_pc).").unwrap();
     writeln!(coq, "Eval vm_compute in (\"SERDE_BN\", map run_serde_binary serde_bn).").unwrap();
-    json!({"pcsaft": pc, "binary": bn})
+    json!({"pcsaft": pc, "binary": bn, "ebinary": eb})
+}
+
+// ------------------------------------------------------------------------------------------------------------
+// schema-driven serde sweep over the model records of EVERY model: random JSON objects built from the keys of the type
+// (zeros at every position), read -> written -> re-read -> re-written; nothing but zero/default values may disappear
+
+#[derive(Clone, Copy)]
+enum K {
+    R,             // required number
+    O,             // optional number
+    U,             // required small unsigned integer
+    V(usize, usize), // optional vector of numbers, length in lo..=hi
+    A(usize),      // optional array of fixed length
+    S,             // optional site_indices [usize; 2]
+}
+
+fn val(rng: &mut Rng, pz: f64) -> f64 {
+    if rng.f64() < pz {
+        0.0
+    } else {
+        (1 + rng.below(60)) as f64 / 16.0 * if rng.f64() < 0.2 { -1.0 } else { 1.0 }
+    }
+}
+
+/// `groups`: keys that only make sense together (a flattened record with required keys): (required keys, optional keys)
+fn gen_obj(rng: &mut Rng, fields: &[(&str, K)], groups: &[(&[&str], &[&str])]) -> Value {
+    let mut m = Map::new();
+    let pz = [0.15, 0.5][rng.below(2)];
+    for (k, kind) in fields {
+        match kind {
+            K::R => {
+                m.insert(k.to_string(), json!(val(rng, 0.1)));
+            }
+            K::U => {
+                m.insert(k.to_string(), json!(rng.below(3)));
+            }
+            K::O => {
+                if rng.f64() < 0.5 {
+                    m.insert(k.to_string(), json!(val(rng, pz)));
+                }
+            }
+            K::V(lo, hi) => {
+                if rng.f64() < 0.75 {
+                    let n = lo + rng.below(hi - lo + 1);
+                    m.insert(k.to_string(), json!((0..n).map(|_| val(rng, pz)).collect::<Vec<_>>()));
+                }
+            }
+            K::A(n) => {
+                if rng.f64() < 0.4 {
+                    m.insert(k.to_string(), json!((0..*n).map(|_| val(rng, pz)).collect::<Vec<_>>()));
+                }
+            }
+            K::S => {
+                if rng.f64() < 0.3 {
+                    m.insert(k.to_string(), json!([rng.below(2), rng.below(2)]));
+                }
+            }
+        }
+    }
+    for (req, opt) in groups {
+        if rng.f64() < 0.5 {
+            for k in req.iter() {
+                m.insert(k.to_string(), json!(val(rng, pz)));
+            }
+            for k in opt.iter() {
+                if rng.f64() < 0.5 {
+                    m.insert(k.to_string(), json!(val(rng, pz)));
+                }
+            }
+        }
+    }
+    Value::Object(m)
+}
+
+/// what of `o` (the JSON that was read) is missing from / different in `s` (what was written)
+fn lost_values(path: String, o: &Value, s: &Value, lost: &mut Vec<Value>) {
+    match o {
+        Value::Object(m) => {
+            for (k, v) in m {
+                match s.get(k) {
+                    Some(sv) => lost_values(format!("{path}/{k}"), v, sv, lost),
+                    None => {
+                        // a number may be dropped only when it is zero (skip_serializing_if is_zero + default), site
+                        // indices only when [0,0], an array of numbers only when it is empty
+                        let dflt = v.as_f64() == Some(0.0) || v.is_null() || *v == json!([0, 0]) || *v == json!([]);
+                        if !dflt {
+                            lost.push(json!({"key": format!("{path}/{k}"), "value_read": v, "written": "<absent>"}));
+                        }
+                    }
+                }
+            }
+        }
+        Value::Array(a) => {
+            if s.as_array().map_or(true, |sa| sa.len() != a.len()) {
+                lost.push(json!({"key": path, "value_read": o, "written": s}));
+                return;
+            }
+            for (j, v) in a.iter().enumerate() {
+                lost_values(format!("{path}/{j}"), v, &s[j], lost);
+            }
+        }
+        Value::Number(x) => {
+            if s.as_f64() != x.as_f64() {
+                lost.push(json!({"key": path, "value_read": o, "written": s}));
+            }
+        }
+        _ => {
+            if o != s {
+                lost.push(json!({"key": path, "value_read": o, "written": s}));
+            }
+        }
+    }
+}
+
+fn sweep<T: Serialize + DeserializeOwned>(name: &str, n: usize, rng: &mut Rng, gen: &dyn Fn(&mut Rng) -> Value) -> Value {
+    let mut accepted = 0;
+    let mut rejected = 0;
+    let mut failures = vec![];
+    let mut sample = Value::Null;
+    for _ in 0..n {
+        let input = gen(rng);
+        let x: T = match serde_json::from_value(input.clone()) {
+            Ok(x) => x,
+            Err(_) => {
+                rejected += 1;
+                continue;
+            }
+        };
+        accepted += 1;
+        let (s1, rt) = roundtrip(&x);
+        if sample.is_null() {
+            sample = json!({"read": input, "written": s1});
+        }
+        let mut lost = vec![];
+        lost_values(String::new(), &input, &s1, &mut lost);
+        let unstable = match &rt {
+            None => Some(json!("the written form cannot be read back")),
+            Some((s2, _)) if *s2 != s1 => Some(json!({"rewritten": s2})),
+            _ => None,
+        };
+        if (!lost.is_empty() || unstable.is_some()) && failures.len() < 5 {
+            failures.push(json!({"record_read": input, "written": s1, "lost_or_changed": lost, "unstable": unstable}));
+        } else if !lost.is_empty() || unstable.is_some() {
+            failures.push(Value::Null);
+        }
+    }
+    let nfail = failures.len();
+    failures.retain(|f| !f.is_null());
+    json!({"type": name, "generated": n, "accepted": accepted, "rejected": rejected, "failing": nfail, "failures": failures, "sample": sample})
+}
+
+fn serde_sweep(rng: &mut Rng, n: usize) -> Vec<Value> {
+    use K::*;
+    let visc: [(&str, K); 3] = [("viscosity", A(4)), ("diffusion", A(5)), ("thermal_conductivity", A(4))];
+    let cat = |a: &[(&'static str, K)], b: &[(&'static str, K)]| -> Vec<(&'static str, K)> { a.iter().chain(b.iter()).cloned().collect() };
+    let mut out = vec![];
+    let f = cat(&[("m", R), ("sigma", R), ("epsilon_k", R), ("mu", O), ("q", O), ("kappa_ab", O), ("epsilon_k_ab", O), ("na", O), ("nb", O), ("nc", O)], &visc);
+    out.push(sweep::<PcSaftRecord>("PcSaftRecord", n, rng, &|r| gen_obj(r, &f, &[])));
+    let f = [("k_ij", O), ("kappa_ab", O), ("epsilon_k_ab", O), ("site_indices", S)];
+    out.push(sweep::<PcSaftBinaryRecord>("PcSaftBinaryRecord", n, rng, &|r| gen_obj(r, &f, &[])));
+    let f = [("m", R), ("sigma", R), ("epsilon_k", R), ("mu", O), ("kappa_ab", O), ("epsilon_k_ab", O), ("na", O), ("nb", O), ("nc", O), ("psi_dft", O)];
+    out.push(sweep::<GcPcSaftRecord>("GcPcSaftRecord", n, rng, &|r| gen_obj(r, &f, &[])));
+    let f = cat(&[("m", R), ("sigma", R), ("epsilon_k", R), ("lr", R), ("la", R), ("rc_ab", O), ("epsilon_k_ab", O), ("na", O), ("nb", O), ("nc", O)], &visc);
+    out.push(sweep::<SaftVRMieRecord>("SaftVRMieRecord", n, rng, &|r| gen_obj(r, &f, &[])));
+    let f = [("k_ij", O), ("gamma_ij", O), ("rc_ab", O), ("epsilon_k_ab", O), ("site_indices", S)];
+    out.push(sweep::<SaftVRMieBinaryRecord>("SaftVRMieBinaryRecord", n, rng, &|r| gen_obj(r, &f, &[])));
+    let f = cat(&[("m", R), ("sigma", R), ("epsilon_k", R), ("lr", R), ("la", R), ("fh", U)], &visc);
+    out.push(sweep::<SaftVRQMieRecord>("SaftVRQMieRecord", n, rng, &|r| gen_obj(r, &f, &[])));
+    let f = [("k_ij", R), ("l_ij", R)];
+    out.push(sweep::<SaftVRQMieBinaryRecord>("SaftVRQMieBinaryRecord", n, rng, &|r| gen_obj(r, &f, &[])));
+    let f = cat(&[("sigma", R), ("epsilon_k", R)], &visc);
+    out.push(sweep::<PetsRecord>("PetsRecord", n, rng, &|r| gen_obj(r, &f, &[])));
+    let f = [("k_ij", R)];
+    out.push(sweep::<PetsBinaryRecord>("PetsBinaryRecord", n, rng, &|r| gen_obj(r, &f, &[])));
+    out.push(sweep::<UVTheoryBinaryRecord>("UVTheoryBinaryRecord", n, rng, &|r| gen_obj(r, &f, &[])));
+    let f = [("rep", R), ("att", R), ("sigma", R), ("epsilon_k", R)];
+    out.push(sweep::<UVTheoryRecord>("UVTheoryRecord", n, rng, &|r| gen_obj(r, &f, &[])));
+    // ePC-SAFT: the flattened association record has two required keys
+    let f = [("m", R), ("sigma", R), ("epsilon_k", R), ("z", O)];
+    let g: [(&[&str], &[&str]); 1] = [(&["kappa_ab", "epsilon_k_ab"], &["na", "nb", "nc"])];
+    out.push(sweep::<ElectrolytePcSaftRecord>("ElectrolytePcSaftRecord", n, rng, &|r| {
+        let mut o = gen_obj(r, &f, &g);
+        match r.below(4) {
+            0 => {
+                o["permittivity_record"] = json!({"PerturbationTheory": {"dipole_scaling": val(r, 0.3), "polarizability_scaling": val(r, 0.3), "correlation_integral_parameter": val(r, 0.3)}});
+            }
+            1 => {
+                let n = 1 + r.below(3);
+                o["permittivity_record"] = json!({"ExperimentalData": {"data": (0..n).map(|i| json!([280.0 + 10.0 * i as f64, val(r, 0.3)])).collect::<Vec<_>>()}});
+            }
+            _ => {}
+        }
+        o
+    }));
+    let f = [("k_ij", V(0, 5)), ("kappa_ab", O), ("epsilon_k_ab", O), ("site_indices", S)];
+    out.push(sweep::<ElectrolytePcSaftBinaryRecord>("ElectrolytePcSaftBinaryRecord", n, rng, &|r| gen_obj(r, &f, &[])));
+    let f = [("tc", R), ("pc", R), ("acentric_factor", R)];
+    out.push(sweep::<PengRobinsonRecord>("PengRobinsonRecord", n, rng, &|r| gen_obj(r, &f, &[])));
+    let f = [("a", R), ("b", R), ("c", R), ("d", R), ("e", R)];
+    out.push(sweep::<JobackRecord>("JobackRecord", n, rng, &|r| gen_obj(r, &f, &[])));
+    out.push(sweep::<DipprRecord>("DipprRecord", n, rng, &|r| {
+        let (name, len) = [("DIPPR100", 1 + r.below(7)), ("DIPPR107", 5), ("DIPPR127", 7)][r.below(3)];
+        let mut m = Map::new();
+        m.insert(name.into(), json!((0..len).map(|_| val(r, 0.4)).collect::<Vec<_>>()));
+        Value::Object(m)
+    }));
+    // the wrappers
+    let f = [("k_ij", V(0, 5)), ("kappa_ab", O), ("epsilon_k_ab", O)];
+    out.push(sweep::<BinaryRecord<Identifier, ElectrolytePcSaftBinaryRecord>>("BinaryRecord<Identifier, ElectrolytePcSaftBinaryRecord>", n, rng, &|r| {
+        json!({"id1": Id::random(r, 5, 0.6).json(), "id2": Id::random(r, 5, 0.6).json(), "model_record": gen_obj(r, &f, &[])})
+    }));
+    let f = [("m", R), ("sigma", R), ("epsilon_k", R), ("mu", O), ("kappa_ab", O), ("epsilon_k_ab", O), ("na", O), ("nb", O), ("psi_dft", O)];
+    out.push(sweep::<SegmentRecord<GcPcSaftRecord>>("SegmentRecord<GcPcSaftRecord>", n, rng, &|r| {
+        json!({"identifier": seg_name(1 + r.below(6) as u32), "molarweight": val(r, 0.2), "model_record": gen_obj(r, &f, &[])})
+    }));
+    let f = [("k_ij", O), ("kappa_ab", O), ("epsilon_k_ab", O)];
+    out.push(sweep::<PureRecord<PcSaftRecord>>("PureRecord<PcSaftRecord>", n, rng, &|r| {
+        let mut o = json!({"identifier": Id::random(r, 5, 0.6).json(), "model_record": {"m": val(r, 0.1), "sigma": val(r, 0.1), "epsilon_k": val(r, 0.1)}});
+        if r.f64() < 0.6 {
+            o["molarweight"] = json!(val(r, 0.3));
+        }
+        let _ = &f;
+        o
+    }));
+    out
 }
 
 /// serialise -> deserialise -> serialise of every record of a shipped file
@@ -1095,6 +1361,7 @@ fn main() {
                 sigma: 16 + 3 * kind as i64 + if rng.f64() < 0.5 { 0 } else { 1 },
                 eps: 150 + rng.below(200) as i64,
                 polar,
+                mu: 6 + rng.below(20) as i64,
             };
             srecs.push(mk(&mut rng));
             if rng.f64() < 0.08 {
@@ -1109,8 +1376,10 @@ fn main() {
         let mut chems = vec![];
         for ic in 0..nch {
             let len = 1 + rng.below(8);
+            // mostly non-polar kinds; every fifth molecule is rich in polar groups (repeated dipolar / associating kinds)
+            let p_plain = if rng.f64() < 0.2 { 0.5 } else { 0.95 };
             let segs: Vec<u32> = (0..len)
-                .map(|_| if rng.f64() < 0.95 { 1 + rng.below(3) as u32 } else { 4 + rng.below(3) as u32 })
+                .map(|_| if rng.f64() < p_plain { 1 + rng.below(3) as u32 } else { 4 + rng.below(3) as u32 })
                 .collect();
             let bonds = if rng.f64() < 0.4 {
                 None
@@ -1255,7 +1524,17 @@ fn main() {
     }
     shipped.push(file_roundtrip::<ChemicalRecord>(&format!("{pdir}/pcsaft/gc_substances.json")));
     shipped.push(file_roundtrip::<PureRecord<SaftVRMieRecord>>(&format!("{pdir}/saftvrmie/lafitte2013.json")));
-    let _ = PengRobinsonRecord::new(1.0, 1.0, 1.0);
+    shipped.push(file_roundtrip::<PureRecord<ElectrolytePcSaftRecord>>(&format!("{pdir}/epcsaft/held2014_w_permittivity_added.json")));
+    shipped.push(file_roundtrip::<BinaryRecord<Identifier, ElectrolytePcSaftBinaryRecord>>(&format!("{pdir}/epcsaft/held2014_binary.json")));
+    for f in ["aasen2019", "aasen2019_fh2", "hammer2023"] {
+        shipped.push(file_roundtrip::<PureRecord<SaftVRQMieRecord>>(&format!("{pdir}/saftvrqmie/{f}.json")));
+    }
+    for f in ["aasen2020_binary", "aasen2020_binary_fh2"] {
+        shipped.push(file_roundtrip::<BinaryRecord<Identifier, SaftVRQMieBinaryRecord>>(&format!("{pdir}/saftvrqmie/{f}.json")));
+    }
+    shipped.push(file_roundtrip::<SegmentRecord<JobackRecord>>(&format!("{pdir}/ideal_gas/joback1987.json")));
+    shipped.push(file_roundtrip::<PureRecord<DipprRecord>>(&format!("{pdir}/ideal_gas/poling2000.json")));
+    let sweep_results = serde_sweep(&mut rng, if full { 3000 } else { 400 });
 
     let pf_json: Vec<Value> = pfiles.iter().map(|f| match f {
         FileSpec::NoFile => json!("<file does not exist>"),
@@ -1281,6 +1560,7 @@ fn main() {
         "homo": impl_homo,
         "hetero": impl_hetero,
         "serde": impl_serde,
+        "serde_sweep": sweep_results,
         "shipped": shipped,
         "behaviour": behaviour,
         "segments_dup_check": dup_check,
